@@ -60,6 +60,8 @@ import (
 const (
 	c16Service     = "c16_service"
 	c16ServiceB    = "c16_service_b" // a second discovery service, served by the same server and followed by the same client
+	c16ServiceC    = "c16_service_c" // a third one whose definition asks for THREE credentials, one of them the self-attested DiscoveryRegistrationCredential
+	c16RegCredType = "DiscoveryRegistrationCredential"
 	c16MaxValidity = 10 * 3600 // seconds
 	c16Long        = 7 * 3600  // validity of an ordinary registration
 	c16Short       = 1 * 3600  // validity of a short registration
@@ -113,9 +115,11 @@ type c16Env struct {
 	defectCache map[string]*c16VP
 	defects   []c16Defect
 	defectsB  []c16Defect // offered to service B
+	required  map[string][]string // service -> credential kinds its definition asks for (one input descriptor each)
 	seenCanon map[[32]byte]bool
 	histCanon map[[32]byte][32]byte
 	pollLabels map[[32]byte]int // parent history -> bit 1: some labelled poll realised, bit 2: some label unrealisable
+	factsCache map[string]c16Facts // per replay (facts are a pure function of the bytes; the cache only bounds repeated signature checks)
 	rndCtr    uint64
 	idCtr     uint64
 	rndBuf    []byte
@@ -174,7 +178,7 @@ func c16NewEnv(t *testing.T, r *ev.Run) *c16Env {
 	logrus.SetOutput(io.Discard)
 	logrus.SetLevel(logrus.PanicLevel)
 	e := &c16Env{t: t, r: r, byDID: map[string]*c16Party{}, credCache: map[string]string{},
-		defectCache: map[string]*c16VP{}, defects: c16Defects(), defectsB: c16MultiCredDefects(), seenCanon: map[[32]byte]bool{}, histCanon: map[[32]byte][32]byte{}, pollLabels: map[[32]byte]int{}, stats: map[string]int64{}}
+		defectCache: map[string]*c16VP{}, factsCache: map[string]c16Facts{}, defects: c16Defects(), defectsB: c16MultiCredDefects(), seenCanon: map[[32]byte]bool{}, histCanon: map[[32]byte][32]byte{}, pollLabels: map[[32]byte]int{}, stats: map[string]int64{}}
 	e.base = time.Now().Truncate(time.Second)
 	vtime.Freeze(e.base)
 	for i, n := range []string{"a", "b", "c"} {
@@ -205,7 +209,27 @@ func c16NewEnv(t *testing.T, r *ev.Run) *c16Env {
 			}},
 		})
 	}
-	e.defs = map[string]ServiceDefinition{c16Service: c16Definition(e.authority.did), c16ServiceB: defB}
+	// service C's definition has THREE input descriptors: the two above plus the self-attested DiscoveryRegistrationCredential
+	// (as in the documented example definition: a field of its credentialSubject)
+	defC := c16Definition(e.authority.did)
+	defC.ID, defC.Endpoint = c16ServiceC, "http://c16.invalid/discovery/"+c16ServiceC
+	{
+		str := func(s string) *string { return &s }
+		defC.PresentationDefinition.Id = "c16_pd_c"
+		defC.PresentationDefinition.Format = &pe.PresentationDefinitionClaimFormatDesignations{
+			"jwt_vc": {"alg": []string{"ES256"}}, "jwt_vp": {"alg": []string{"ES256"}}, "ldp_vc": {"proof_type": []string{"JsonWebSignature2020"}},
+		}
+		defC.PresentationDefinition.InputDescriptors = append(append([]*pe.InputDescriptor{}, defB.PresentationDefinition.InputDescriptors...), &pe.InputDescriptor{
+			Id: "registration",
+			Constraints: &pe.Constraints{Fields: []pe.Field{
+				{Path: []string{"$.type"}, Filter: &pe.Filter{Type: "string", Const: str(c16RegCredType)}},
+				{Id: str("auth_server_url"), Path: []string{"$.credentialSubject.authServerURL"}},
+			}},
+		})
+	}
+	e.defs = map[string]ServiceDefinition{c16Service: c16Definition(e.authority.did), c16ServiceB: defB, c16ServiceC: defC}
+	e.required = map[string][]string{c16Service: {"TestCredential"}, c16ServiceB: {"TestCredential", "RoleCredential"},
+		c16ServiceC: {"TestCredential", "RoleCredential", c16RegCredType}}
 	vctx := vcr.NewTestVCRContext(t, nutscrypto.NewMemoryCryptoInstance(t))
 	e.vcr = vctx.VCR
 	s1 := storage.NewTestStorageEngine(t)
@@ -268,13 +292,17 @@ type c16CredOpt struct {
 	BadSig  bool
 	Fresh   bool // never cached (own id)
 	NoExp   bool // the credential has no expiry at all
+	NbfAbs  int64 // absolute nbf / issuanceDate; 0 = base - 1 h
 }
 
 func (e *c16Env) cred(o c16CredOpt) string {
 	if o.ExpAbs == 0 {
 		o.ExpAbs = e.base.Unix() + 30*24*3600
 	}
-	key := fmt.Sprintf("%s|%s|%d|%v|%v", o.Type, o.Subject.did, o.ExpAbs, o.BadSig, o.NoExp)
+	if o.NbfAbs == 0 {
+		o.NbfAbs = e.base.Unix() - 3600
+	}
+	key := fmt.Sprintf("%s|%s|%d|%v|%v|%d", o.Type, o.Subject.did, o.ExpAbs, o.BadSig, o.NoExp, o.NbfAbs)
 	if !o.Fresh {
 		if c, ok := e.credCache[key]; ok {
 			return c
@@ -286,7 +314,7 @@ func (e *c16Env) cred(o c16CredOpt) string {
 	}
 	claims := map[string]any{
 		"iss": e.authority.did, "sub": o.Subject.did, "jti": e.authority.did + "#" + e.newID(),
-		"nbf": e.base.Unix() - 3600, "exp": o.ExpAbs,
+		"nbf": o.NbfAbs, "exp": o.ExpAbs,
 		"vc": map[string]any{
 			"@context":          []string{"https://www.w3.org/2018/credentials/v1"},
 			"type":              []string{"VerifiableCredential", o.Type},
@@ -303,6 +331,30 @@ func (e *c16Env) cred(o c16CredOpt) string {
 	return c
 }
 
+// selfCred: a self-attested credential as the node's wallet adds it to a registration (client.go
+// findCredentialsAndBuildPresentation + AutoCorrectSelfAttestedCredential): a JSON-LD credential WITHOUT proof, issued
+// by the holder to itself, protected by the presentation's signature only.
+func (e *c16Env) selfCred(o c16CredOpt) map[string]any {
+	if o.NbfAbs == 0 {
+		o.NbfAbs = e.base.Unix() - 3600
+	}
+	c := map[string]any{
+		"@context":          []string{"https://www.w3.org/2018/credentials/v1", credential.NutsV1Context},
+		"type":              []string{"VerifiableCredential", o.Type},
+		"id":                e.newID(),
+		"issuer":            o.Subject.did,
+		"issuanceDate":      time.Unix(o.NbfAbs, 0).UTC().Format(time.RFC3339),
+		"credentialSubject": map[string]any{"id": o.Subject.did, "authServerURL": "https://c16.invalid/oauth2/" + o.Subject.name},
+	}
+	if !o.NoExp {
+		if o.ExpAbs == 0 {
+			o.ExpAbs = e.base.Unix() + 30*24*3600
+		}
+		c["expirationDate"] = time.Unix(o.ExpAbs, 0).UTC().Format(time.RFC3339)
+	}
+	return c
+}
+
 type c16VPOpt struct {
 	Iss     *string // nil = the signer's DID; "" = no iss claim; else that value (kid and iss disagree)
 	Signer  *c16Party
@@ -315,8 +367,12 @@ type c16VPOpt struct {
 	NoExp   bool
 	NbfIn   int64
 	Creds   []string
+	CredsAny []any // when set: used instead of Creds (JWT strings and / or credential objects, in this order)
 	Types   []string
-	Extra   map[string]any
+	Extra   map[string]any // claims set last (may overwrite iss / sub / ...)
+	Drop    []string       // claims removed last
+	Kid     *string        // nil = the signer's kid; "" = no kid header; else that value
+	Lenient bool           // return nil instead of failing the test when the result cannot be parsed as a presentation
 	LDP     bool
 }
 
@@ -347,7 +403,9 @@ func (e *c16Env) buildVP(o c16VPOpt) *c16VP {
 		raw = string(b)
 	} else {
 		vp := map[string]any{"@context": []string{"https://www.w3.org/2018/credentials/v1"}, "type": types}
-		if len(o.Creds) > 0 {
+		if len(o.CredsAny) > 0 {
+			vp["verifiableCredential"] = o.CredsAny
+		} else if len(o.Creds) > 0 {
 			vp["verifiableCredential"] = o.Creds
 		}
 		claims := map[string]any{"iss": o.Signer.did, "sub": o.Signer.did, "nbf": now + o.NbfIn, "vp": vp}
@@ -374,13 +432,23 @@ func (e *c16Env) buildVP(o c16VPOpt) *c16VP {
 		for k, v := range o.Extra {
 			claims[k] = v
 		}
+		for _, k := range o.Drop {
+			delete(claims, k)
+		}
 		key := o.SignKey
 		if key == nil {
 			key = o.Signer.key
 		}
-		raw = c16Sign(key, o.Signer.kid, claims)
+		kid := o.Signer.kid
+		if o.Kid != nil {
+			kid = *o.Kid
+		}
+		raw = c16Sign(key, kid, claims)
 	}
 	parsed, err := vc.ParseVerifiablePresentation(raw)
+	if err != nil && o.Lenient {
+		return nil
+	}
 	if err != nil {
 		e.t.Fatalf("harness built an unparsable presentation: %v", err)
 	}
@@ -394,11 +462,13 @@ type c16CredFacts struct {
 	Types           []string
 	Exp, Nbf        int64
 	SigOK           bool
+	Self            bool // a credential object without proof (self-attested): protected by the presentation's signature only
 }
 
 type c16Facts struct {
 	Format     string // "jwt" | "ldp"
 	Iss        string // iss claim ("" = none)
+	Sub        string // sub claim ("" = none)
 	Signer     string // DID of the kid header
 	Method     string
 	ID         string
@@ -455,7 +525,8 @@ func (e *c16Env) sigOK(raw string, hdr map[string]any) (bool, string) {
 	kid, _ := hdr["kid"].(string)
 	d := strings.SplitN(kid, "#", 2)[0]
 	p := e.byDID[d]
-	if p == nil || kid != p.kid || hdr["alg"] != "ES256" {
+	// the kid names a key of party p: its one verification method, or (did:jwk only: the node completes it with "#0") the bare DID
+	if p == nil || (kid != p.kid && !(kid == p.did && strings.HasPrefix(p.did, "did:jwk:"))) || hdr["alg"] != "ES256" {
 		return false, d
 	}
 	_, err := jws.Verify([]byte(raw), jws.WithKey(jwa.ES256, &p.key.PublicKey))
@@ -463,6 +534,15 @@ func (e *c16Env) sigOK(raw string, hdr map[string]any) (bool, string) {
 }
 
 func (e *c16Env) facts(raw string) c16Facts {
+	if f, ok := e.factsCache[raw]; ok {
+		return f
+	}
+	f := e.factsUncached(raw)
+	e.factsCache[raw] = f
+	return f
+}
+
+func (e *c16Env) factsUncached(raw string) c16Facts {
 	if strings.HasPrefix(strings.TrimSpace(raw), "{") {
 		return c16Facts{Format: "ldp"}
 	}
@@ -478,6 +558,7 @@ func (e *c16Env) facts(raw string) c16Facts {
 	}
 	f.ID, _ = claims["jti"].(string)
 	f.Iss, _ = claims["iss"].(string)
+	f.Sub, _ = claims["sub"].(string)
 	f.Aud = c16Strings(claims["aud"])
 	f.Exp, f.Nbf = c16Num(claims["exp"]), c16Num(claims["nbf"])
 	f.RetractJTI = claims["retract_jti"]
@@ -487,7 +568,53 @@ func (e *c16Env) facts(raw string) c16Facts {
 			f.Retraction = true
 		}
 	}
-	for _, c := range c16Strings(vp["verifiableCredential"]) {
+	var credList []any
+	switch x := vp["verifiableCredential"].(type) {
+	case []any:
+		credList = x
+	case nil:
+	default:
+		credList = []any{x} // a single credential may be given without the array
+	}
+	for _, item := range credList {
+		c, isString := item.(string)
+		if obj, isObj := item.(map[string]any); isObj {
+			// a credential object (JSON-LD); without proof it is self-attested and counts as signed iff its issuer is the
+			// presentation's holder (iss) — the presentation's signature protects it
+			cf := c16CredFacts{}
+			switch iss := obj["issuer"].(type) {
+			case string:
+				cf.Issuer = iss
+			case map[string]any:
+				cf.Issuer, _ = iss["id"].(string)
+			}
+			switch cs := obj["credentialSubject"].(type) {
+			case map[string]any:
+				cf.Subject, _ = cs["id"].(string)
+			case []any:
+				if len(cs) == 1 {
+					if m, ok := cs[0].(map[string]any); ok {
+						cf.Subject, _ = m["id"].(string)
+					}
+				}
+			}
+			cf.Types = c16Strings(obj["type"])
+			if t, err := time.Parse(time.RFC3339, fmt.Sprint(obj["expirationDate"])); err == nil {
+				cf.Exp = t.Unix()
+			}
+			if t, err := time.Parse(time.RFC3339, fmt.Sprint(obj["issuanceDate"])); err == nil {
+				cf.Nbf = t.Unix()
+			}
+			_, hasProof := obj["proof"]
+			cf.Self = !hasProof
+			cf.SigOK = cf.Self && cf.Issuer != "" && cf.Issuer == f.Iss
+			f.Creds = append(f.Creds, cf)
+			continue
+		}
+		if !isString {
+			f.Creds = append(f.Creds, c16CredFacts{})
+			continue
+		}
 		ch, cc, ok := c16DecodeJWT(c)
 		if !ok {
 			f.Creds = append(f.Creds, c16CredFacts{})
@@ -558,10 +685,7 @@ func (e *c16Env) ref(f c16Facts, now int64, listedID func(string) string) (bool,
 		}
 	}
 	// "all and only": exactly one credential per input descriptor of the service's definition
-	required := []string{"TestCredential"}
-	if c16Cur == c16ServiceB {
-		required = []string{"TestCredential", "RoleCredential"}
-	}
+	required := e.required[c16Cur]
 	if len(f.Creds) < len(required) {
 		return false, "missing-credential"
 	}
@@ -571,7 +695,14 @@ func (e *c16Env) ref(f c16Facts, now int64, listedID func(string) string) (bool,
 	for _, want := range required {
 		n := 0
 		for _, c := range f.Creds {
-			if c16Has(c.Types, want) && c.Issuer == e.authority.did {
+			if !c16Has(c.Types, want) {
+				continue
+			}
+			if want == c16RegCredType {
+				if c.Self && c.Issuer == f.Signer { // the registration credential is the holder's own statement
+					n++
+				}
+			} else if c.Issuer == e.authority.did {
 				n++
 			}
 		}
@@ -659,6 +790,11 @@ type c16Config struct {
 	// TwoServices: a second service on the same server and client: register / retract per service, polls fetch both, all
 	// oracles per service, and an event on one service must change nothing observable on the other
 	TwoServices bool
+	// Owners: events whose presentations are admissible but name / collide with ANOTHER subject: regdup(s) = a valid
+	// registration under the id of another subject's listed entry, retractx(s) = s's own retraction whose iss/sub name
+	// another subject. The ownership clauses (an entry changes only through something signed by its subject's key) are
+	// judged at every transition of every configuration.
+	Owners bool
 }
 
 type c16Entry struct {
@@ -732,6 +868,8 @@ type c16World struct {
 	unreal   bool // no replay produced the labelled order: the label is not realisable in this state
 	added    []string // raw presentations in the order the client added them during the current poll
 	superBy  map[string]*c16VP // presentation -> the presentation that displaced it on the server
+	replayCase map[string]any // replay case reported with a violation (nil = configuration + history)
+	alsoClient bool // submit() also hands the presentation to the CLIENT's verifier (what the client does with a lying server's answer)
 	rowsOK   bool // cache of the server rows (invalidated by every accepted registration / inject / reset)
 	rowsC    []c16Row
 	seedC    string
@@ -809,6 +947,9 @@ func (e *c16Env) newWorld(cfg c16Config) *c16World {
 	c16Wipe(e.t, e.cliDB)
 	vtime.Freeze(e.base)
 	e.rndCtr, e.rndBuf = 0, nil
+	if len(e.factsCache) > 20000 {
+		e.factsCache = map[string]c16Facts{}
+	}
 	uuid.SetRand(c16Rand{e})
 	w := &c16World{e: e, cfg: cfg, model: map[string]*c16Entry{}, prev: make([]*c16VP, cfg.K), known: map[string]bool{},
 		injected: map[string]bool{}, lastTs: map[string]int{}, superBy: map[string]*c16VP{}, svcModel: map[string]*c16SvcModel{}}
@@ -904,8 +1045,11 @@ func (w *c16World) histStrings() []string {
 
 func (w *c16World) violation(sig, what string) {
 	w.dirty = true
-	w.e.r.Violation(sig, what+" — history "+strings.Join(w.histStrings(), ", "),
-		map[string]any{"config": w.cfg.Name, "hist": w.hist})
+	var rc any = map[string]any{"config": w.cfg.Name, "hist": w.hist}
+	if w.replayCase != nil {
+		rc = w.replayCase
+	}
+	w.e.r.Violation(sig, what+" — history "+strings.Join(w.histStrings(), ", "), rc)
 }
 
 type c16Row struct {
@@ -931,6 +1075,13 @@ func c16Rows(t *testing.T, db *gorm.DB) (rows []c16Row, seed string, ts int) {
 		t.Fatal(err)
 	}
 	return rows, svc.Seed, svc.LastLamportTimestamp
+}
+
+func (w *c16World) partyName(did string) string {
+	if p := w.e.byDID[did]; p != nil {
+		return p.name
+	}
+	return "an unknown party"
 }
 
 func (w *c16World) subjectIdx(did string) int {
@@ -965,6 +1116,18 @@ func (w *c16World) submit(vp *c16VP, label string, honest bool) bool {
 	err := w.direct.Register(context.Background(), "", vp.VP)
 	accepted := err == nil
 	e.stats["submissions"]++
+	if w.alsoClient && !vp.Facts.Retraction && !w.dirty {
+		// the same bytes as a (possibly lying) server's answer to the client: the client's own verification decides
+		// what its Search may return
+		if rt, rerr := c16RoundTrip(vp.VP); rerr == nil {
+			e.stats["client_verifications"]++
+			if cerr := w.cli.registrationManager.verifier(e.defs[c16Cur], rt); cerr == nil && !ok {
+				w.violation("C16|client|verifier-accepts-although-reference-refuses|"+clause,
+					fmt.Sprintf("the client's verifier accepts a presentation (%s) that the reference predicate refuses: %s", label, clause))
+				return accepted
+			}
+		}
+	}
 	if w.cfg.TwoServices && !w.dirty && w.otherServices(e.srvDB) != othersBefore {
 		w.violation("C16|server|event-on-one-service-changed-another",
 			fmt.Sprintf("offering a presentation (%s) to service %s changed the live entries, seed or timestamp of another service", label, c16Cur))
@@ -1011,6 +1174,33 @@ func (w *c16World) submit(vp *c16VP, label string, honest bool) bool {
 			mine = &post[i]
 		}
 	}
+	// ownership: an accepted presentation signed with a key of X may replace X's entry and nothing else. Entries of every
+	// other subject stay as they were (expired ones excepted: any accepted registration prunes them).
+	for _, r := range pre {
+		if r.Signer == vp.Facts.Signer || r.Exp < now {
+			continue
+		}
+		kept := false
+		for _, q := range post {
+			if q.Raw == r.Raw && q.Ts == r.Ts && q.Signer == r.Signer {
+				kept = true
+			}
+		}
+		if !kept {
+			by := "registration"
+			if vp.Facts.Retraction {
+				by = "retraction"
+			}
+			w.violation("C16|server|entry-of-another-subject-removed-or-replaced|by-"+by,
+				fmt.Sprintf("an accepted %s (%s) signed by %s removed or replaced the live entry of another subject", by, label, w.partyName(vp.Facts.Signer)))
+			return true
+		}
+	}
+	if mine != nil && mine.Signer != vp.Facts.Signer {
+		w.violation("C16|server|entry-filed-under-another-subject",
+			fmt.Sprintf("the accepted presentation (%s) signed by %s is listed as the entry of %s", label, w.partyName(vp.Facts.Signer), w.partyName(mine.Signer)))
+		return true
+	}
 	if mine == nil {
 		e.r.Observation("accepted-registration-not-listed", map[string]any{"label": label, "hist": w.histStrings()})
 	} else {
@@ -1055,6 +1245,17 @@ func (w *c16World) regVP(s int, validity int64) *c16VP {
 		creds = append(creds, w.e.cred(c16CredOpt{Type: "RoleCredential", Subject: p}))
 	}
 	return w.e.buildVP(c16VPOpt{Signer: p, ExpIn: validity, Creds: creds})
+}
+
+// otherListed: the listed entry of the lowest-numbered subject other than s whose id differs from s's own listed id
+func (w *c16World) otherListed(s int) *c16Entry {
+	own := w.model[w.e.subjects[s].did]
+	for t := 0; t < w.cfg.K; t++ {
+		if en := w.model[w.e.subjects[t].did]; t != s && en != nil && (own == nil || own.VP.Facts.ID != en.VP.Facts.ID) {
+			return en
+		}
+	}
+	return nil
 }
 
 func (w *c16World) reset() {
@@ -1198,6 +1399,25 @@ func (w *c16World) apply(ev c16Event) {
 		vp := e.buildVP(c16VPOpt{Signer: e.subjects[ev.S], ExpIn: c16Long, Types: []string{c16RetractType},
 			Extra: map[string]any{"retract_jti": en.VP.Facts.ID}})
 		w.submit(vp, "retraction by the signer", true)
+	case "regdup":
+		// a valid registration of subject S that carries the id (jti) of ANOTHER subject's listed entry
+		other := w.otherListed(ev.S)
+		if other == nil {
+			return
+		}
+		p := e.subjects[ev.S]
+		w.submit(e.buildVP(c16VPOpt{Signer: p, ID: other.VP.Facts.ID, ExpIn: c16Long,
+			Creds: []string{e.cred(c16CredOpt{Type: "TestCredential", Subject: p})}}), "registration under the id of another subject's entry", true)
+	case "retractx":
+		// a retraction by S of its OWN entry whose iss / sub claims name another subject (nothing ties the claims of a
+		// credential-less presentation to the signing key: the signer is who counts)
+		en := w.model[e.subjects[ev.S].did]
+		if en == nil {
+			return
+		}
+		o := e.subjects[(ev.S+1)%w.cfg.K]
+		w.submit(e.buildVP(c16VPOpt{Signer: e.subjects[ev.S], ExpIn: c16Long, Types: []string{c16RetractType},
+			Extra: map[string]any{"retract_jti": en.VP.Facts.ID, "iss": o.did, "sub": o.did}}), "retraction by the signer that names another subject", true)
 	case "replay":
 		vp := w.prev[ev.S]
 		if vp == nil {
@@ -1305,6 +1525,16 @@ func (w *c16World) enabled() []c16Event {
 			}
 		}
 	}
+	if w.cfg.Owners {
+		for s := 0; s < k; s++ {
+			if w.otherListed(s) != nil {
+				evs = append(evs, c16Event{Op: "regdup", S: s})
+			}
+			if en := w.model[w.e.subjects[s].did]; en != nil && en.Kind == "reg" {
+				evs = append(evs, c16Event{Op: "retractx", S: s})
+			}
+		}
+	}
 	if w.cfg.Inject {
 		for s := 0; s < k && s < w.cfg.InjectS; s++ {
 			evs = append(evs, c16Event{Op: "inject", S: s})
@@ -1370,15 +1600,26 @@ func (w *c16World) canonOfCurrent() string {
 		}
 		return exp - now
 	}
+	ids := map[string]int{}
 	kind := func(raw string) string {
 		f := e.facts(raw)
+		k := "r"
 		switch {
 		case f.Retraction:
-			return "t"
+			k = "t"
 		case w.injected[raw]:
-			return "x"
+			k = "x"
 		}
-		return "r"
+		// id class (two entries sharing one presentation id) and "names another party than its signer" are part of the
+		// state: both are invisible in ordinary histories (every id is fresh, every token names its signer)
+		if _, ok := ids[f.ID]; !ok {
+			ids[f.ID] = len(ids)
+		}
+		k += fmt.Sprintf("i%d", ids[f.ID])
+		if (f.Iss != "" && f.Iss != f.Signer) || (f.Sub != "" && f.Sub != f.Signer) {
+			k += "n"
+		}
+		return k
 	}
 	srows, sseed, sts := c16Rows(e.t, e.srvDB)
 	crows, cseed, cts := c16Rows(e.t, e.cliDB)
@@ -1431,6 +1672,11 @@ func (w *c16World) checkServerState() {
 		}
 		if !w.known[r.Raw] {
 			w.violation("C16|server|listed-but-never-accepted", "the list holds a presentation no accepted registration carried")
+		}
+		// ownership of every listed entry: it is the entry of the subject whose key signed it
+		if f := e.facts(r.Raw); !w.injected[r.Raw] && !w.dirty && (f.Signer != r.Signer || !f.SigOK) {
+			w.violation("C16|server|entry-filed-under-a-subject-that-did-not-sign-it",
+				fmt.Sprintf("the list holds, as the entry of %s, a presentation signed by %s (signature by that party's key: %v)", w.partyName(r.Signer), w.partyName(f.Signer), f.SigOK))
 		}
 	}
 	// API view equals the rows
@@ -1943,6 +2189,9 @@ func (w *c16World) offerDefects() int {
 			}
 		})
 	}
+	if !w.dirty {
+		n += w.offerFamilies(light) // the generated families (zz_verif_c16_families_test.go)
+	}
 	return n
 }
 
@@ -2029,6 +2278,7 @@ func c16Configs(thorough bool) []c16Config {
 			{Name: "full-k2", K: 2, Depth: 4, Split: 2, Short: true, Inject: true, InjectS: 2, Replay: true, Defects: true, LeafLight: true},
 			{Name: "validation-k2", K: 2, Depth: 4, Split: 2, Inject: true, InjectS: 2, Small: true, Validation: true},
 			{Name: "services-k2", K: 2, Depth: 4, Split: 2, Small: true, TwoServices: true},
+			{Name: "owners-k2", K: 2, Depth: 3, Split: 2, Small: true, Owners: true, Defects: true},
 		}
 	}
 	return []c16Config{
@@ -2037,6 +2287,8 @@ func c16Configs(thorough bool) []c16Config {
 		{Name: "full-k2", K: 2, Depth: 5, Split: 3, Short: true, Inject: true, InjectS: 2, Replay: true, Defects: true},
 		{Name: "core-k2", K: 2, Depth: 6, Split: 3, Defects: false},
 		{Name: "core-k3", K: 3, Depth: 5, Split: 3, Replay: true, Defects: true},
+		{Name: "owners-k2", K: 2, Depth: 5, Split: 3, Small: true, Owners: true, Replay: true, Defects: true},
+		{Name: "owners-k3", K: 3, Depth: 4, Split: 2, Small: true, Owners: true, Defects: true},
 	}
 }
 
